@@ -114,10 +114,14 @@ CLAIMS = {
  "C19": dict(
    text="Deductive proof from the real source of gen.flatten_sns_names for the list forms: a list of names is returned as it is; a list of lists with reference indices gives REF1..REFk "
         "(k = references of the first setup) followed by every setup's names at non-reference positions in listed order (loop invariants over symbolic list lengths and reference "
-        "positions, setups enumerated: 2); AttributeError without reference indices; ValueError for other types. Everything that goes through pandas - validation of the table sets, "
+        "positions, setups enumerated: 2); AttributeError without reference indices; ValueError for other types. Deductive proof, over abstract tables (shapes, emptiness, labels and provenance symbolic; sheet layouts enumerated), of the validation skeleton of "
+        "gen.check_on_geo1 and gen.check_on_geo2: ValueError exactly for the malformed table sets of the statement (missing required or unknown sheet, wrong column counts, mismatched shapes or row labels, sensor names absent from "
+        "the coordinate index / the mapping cells, constraint columns that are not sensors, constraint names the mapping never uses) and no other exception, every optional sheet may be omitted; coordinates and directions are "
+        "the reindex of their sheets by the sensor names, line / surface sheets pass through sub(1), background nodes do not, empty or omitted sheets give None, constraints are re-ordered to one column per sensor with zero "
+        "columns added, an omitted sign sheet becomes +1. What those pandas operations compute, and everything else that goes through pandas - "
         "re-ordering of coordinates/directions to the sensor order, zero-based line/surface indices, None for omitted sheets, mapping of a mode shape to points, def_geo1/def_geo2 with the "
         "documented argument forms - is outside the verifier's reach and is checked by a bounded stand-in on crafted table sets with single-fault corruptions (labelled bounded, not counted as proved).",
-   note="Mixed level: proof for the name-order clause, bounded for the table clauses. Two defects found by the stand-in were repaired in /repo (known_findings.jsonl).",
+   note="Mixed level: proof for the name order and the validation / data-flow skeleton over abstract tables; bounded for pandas' own semantics and the mapping values. Two defects found by the stand-in were repaired in /repo.",
    design="6 (C19)", technique="contract-based deductive verification (pyvc AST->VC, z3) for flatten_sns_names; bounded native stand-in for the pandas-dependent functions"),
  "C01": dict(
    text="Deductive proof from the real source, with the eigen-decomposition as an uninterpreted kernel, of ssi.ac2mp (poles = log(eigenvalue)/dt, frequency = |lambda|/2pi, damping = -Re lambda/|lambda|, "
